@@ -241,6 +241,8 @@ reuse_idx:
   if(cond & TICKIT_IO_HUP)
     events |= POLLHUP;
   evdata->pollfds[idx].events = events;
+  /* nothing has been reported for this descriptor yet */
+  evdata->pollfds[idx].revents = 0;
 
   evdata->pollwatches[idx] = watch;
 
